@@ -274,12 +274,25 @@ package node
 //@   ensures result == nil ==> (forall k int :: 0 <= k && k < len(eblock.Entries) ==> eblock.Entries[k].Hash != nil)
 //@   ensures envHealthy ==> result == nil
 //@
+//@ // the one-time burn of the minted tokens (C15 C10): when nil is returned every listed asset of the mint address is at zero and
+//@ // no other address has changed
 //@ func (*Pegnetd).NullifyMintedTokens
-//@   trusted
+//@   props C15 C10 C04
+//@   requires @wellformed d.Pegnet != nil
 //@   requires @only_at_activation height == config.V204BurnMintedTokenActivation
+//@   requires @nonneg balNonNeg(Lbal)
+//@   requires @listed_tickers_valid forall k int :: 0 <= k && k < len(MintTotalSupplyMap) ==> validTicker(MintTotalSupplyMap[k].Ticker)
 //@   modifies Lbal, Lsupply
-//@   ensures !isRejectErr(result)
-//@   ensures result == nil ==> balNonNeg(Lbal)
+//@   let M = faAddr(GlobalMintAddress)
+//@   ensures @error_is_not_a_reject_code !isRejectErr(result)
+//@   ensures @never_negative result == nil ==> balNonNeg(Lbal)
+//@   ensures @minted_tokens_zeroed result == nil ==> (forall k int :: 0 <= k && k < len(MintTotalSupplyMap) ==> Lbal[M][MintTotalSupplyMap[k].Ticker] == 0)
+//@   ensures @only_the_mint_address result == nil ==> (forall a factom.FAAddress, t int :: a != M ==> Lbal[a][t] == old(Lbal)[a][t])
+//@   loop 1 invariant @range 0 <= iter && iter <= len(MintTotalSupplyMap)
+//@   loop 1 invariant @zeroed_so_far forall k int :: 0 <= k && k < iter ==> Lbal[M][MintTotalSupplyMap[k].Ticker] == 0
+//@   loop 1 invariant @only_down (forall t int :: Lbal[M][t] == old(Lbal)[M][t] || Lbal[M][t] == 0) && balNonNeg(Lbal) && (forall a factom.FAAddress, t int :: a != M ==> Lbal[a][t] == old(Lbal)[a][t])
+//@   loop 1 invariant @snapshot err == nil ==> balances != nil && (forall t fat2.PTicker :: validTicker(t) ==> dom(balances)[t] && vals(balances)[t] == old(Lbal)[M][t])
+//@   loop 1 preserves old
 //@
 //@ // the per-block PEG bank (C16): opened with the base amount exactly in the bank era [V4OPRUpdate, 2.0), untouched otherwise
 //@ func (*Pegnetd).SyncBank
